@@ -33,6 +33,12 @@ def run(chk):
         tf = work / ("g%d.utb" % i)
         tf.write_text(tablegen.table_text(entries))
         lists.append("unicode.dis," + str(tf))
+    for i in range(10 if quick else 200):
+        r = rng.fork(("emph", i))
+        text, _al = tablegen.gen_emphasis_table(r)
+        tf = work / ("e%d.utb" % i)
+        tf.write_text(text)
+        lists.append("unicode.dis," + str(tf))
     for tl in lists:
         r = rng.fork(("cases", tl))
         fwd = []
